@@ -37,9 +37,22 @@ SmallR(j) == SmallR2(j, Dof(j), MulN(Dof(j), G), Small(j, 8), Kof(j))
 InfCase3(j, pt, r, s) == << Forge4("sum-is-infinity", pt, r, r, s, VerifyRS(pt, r, r, s)) >>
 InfCase2(j, d, pt, s, t) == InfCase3(j, pt, BSubMod(t, s, NN), s)
 InfCase(j) == InfCase2(j, Dof(j), MulN(Dof(j), G), Small(j, 12), BSubMod(BZero, BMulMod(Small(j, 12), InvN(Dof(j)), NN), NN))
+\* digests that force each retry branch of the signer for the nonce k:  r = 0;  r + k = n;  s = 0 (k = r d)
+Retry(j, tag, d, k, e) == [kind |-> "signretry", fault |-> tag, d |-> B32(d), k |-> B32(k), e |-> B32(e), isretry |-> SignDigest(d, B32(e), k)[1]]
+RetryCases2(j, d, k, x1) == << Retry(j, "r=0", d, k, BSubMod(BZero, x1, NN)),
+                               Retry(j, "r+k=n", d, k, BSubMod(BSubMod(NN, k, NN), x1, NN)),
+                               Retry(j, "s=0", d, k, BSubMod(BMulMod(k, InvN(d), NN), x1, NN)) >>
+RetryCases(j) == RetryCases2(j, Dof(j), Kof(j), BMod(MulN(Kof(j), G)[1], NN))
+\* near misses: r' = r xor 2^b with s' = (1+d)^-1 (k - r' d), so that [s']G + [t']P = [k]G and the recomputed R equals r, which differs
+\* from r' in exactly one bit -- only a comparison of ALL 256 bits rejects every one of them (weak / partial comparisons accept some)
+BitFlip(r, b) == BFromBE([q \in 1..32 |-> IF q = 32 - (b \div 8) THEN B32(r)[q] ^^ (2^(b % 8)) ELSE B32(r)[q]])
+NearOne(pt, d, k, e, r2) == Forge4("near-miss", pt, e, r2, SignS(d, k, r2), FALSE)
+NearMiss3(j, pt, d, k, e, r) == [b \in 1..256 |-> NearOne(pt, d, k, e, BitFlip(r, b - 1))]
+NearMiss2(j, pt, d, k, e) == NearMiss3(j, pt, d, k, e, BAddMod(e, MulN(k, G)[1], NN))
+NearMiss(j) == IF j = 1 THEN NearMiss2(j, MulN(Dof(j), G), Dof(j), Kof(j), BMod(BFromBE(Seed(j, 13)), NN)) ELSE <<>>
 TZero2(j, pt, r, s) == << Forge4("t=0", pt, BSubMod(r, MulN(s, G)[1], NN), r, s, FALSE) >>
 TZero(j) == TZero2(j, MulN(Dof(j), G), Kof(j), BSub(NN, Kof(j)))
 Init == pidx = 0 /\ pout = <<>>
-Next == pidx < NK /\ pidx' = pidx + 1 /\ pout' = <<Honest(pidx + 1)>> \o SmallS(pidx + 1) \o SmallR(pidx + 1) \o TZero(pidx + 1) \o InfCase(pidx + 1)
+Next == pidx < NK /\ pidx' = pidx + 1 /\ pout' = <<Honest(pidx + 1)>> \o SmallS(pidx + 1) \o SmallR(pidx + 1) \o TZero(pidx + 1) \o InfCase(pidx + 1) \o RetryCases(pidx + 1) \o NearMiss(pidx + 1)
 Emit == \A j \in 1..Len(pout) : PrintT(<<"PLAN", ToJson(pout[j])>>)
 =============================================================================
